@@ -105,7 +105,8 @@ IntCases ==
                      text |-> Prefix(r, up) \o Join(sp), canon |-> Canon(m)] :
                      up \in BOOLEAN, n \in BOOLEAN, sp \in Placements(m) } : m \in Mags(r) } : r \in {2, 8, 10, 16} }
 
-(* the same spellings are also used with units and `im` (decimal only; a blank or not) *)
+(* the same spellings are also used with units and `im` (decimal only; a blank or not); the magnitudes around the *)
+(* representation boundaries (2^31 .. 2^128-1) are used there too                                             *)
 Units == { [t |-> "dt", u |-> "Cycle"], [t |-> "ns", u |-> "NanoSecond"], [t |-> "us", u |-> "MicroSecond"],
            [t |-> "%%00B5;s", u |-> "MicroSecond"], [t |-> "ms", u |-> "MilliSecond"], [t |-> "s", u |-> "Second"] }
 SmallDec == { <<"0">>, <<"1">>, <<"1", "0">>, <<"1", "0", "0", "0">>, <<"0", "7">>, <<"4","2","9","4","9","6","7","2","9","6">> }
@@ -113,10 +114,12 @@ TimingIntCases ==
   UNION { { [cls |-> "timing_int", radix |-> 10, neg |-> FALSE, suffix |-> u.u,
              text |-> Join(sp) \o gap \o u.t, canon |-> Canon(m)] :
              sp \in Placements(m), u \in Units, gap \in {"", " ", "  "} } : m \in SmallDec }
+  \cup UNION { { [cls |-> "timing_int", radix |-> 10, neg |-> FALSE, suffix |-> u.u,
+             text |-> Join(m) \o u.t, canon |-> Canon(m)] : u \in Units } : m \in MagDec }
 ImagIntCases ==
   UNION { { [cls |-> "imag_int", radix |-> 10, neg |-> n, suffix |-> "im",
              text |-> Join(sp) \o gap \o "im", canon |-> Canon(m)] :
-             sp \in Placements(m), gap \in {"", " "}, n \in BOOLEAN } : m \in SmallDec }
+             sp \in Placements(m), gap \in {"", " "}, n \in BOOLEAN } : m \in SmallDec \cup MagDec }
 
 (* floats: integer part, optional fraction, optional exponent; CanonText = no underscores *)
 IntParts  == { <<"0">>, <<"1">>, <<"1", "0">>, <<"1", "_", "0">>, <<"1","2","3","4","5","6","7","8","9">>, <<"0", "0", "7">> }
